@@ -264,7 +264,8 @@ class C16(Prop):
         "jukesCantorMx_spec", "avgConnectivity_spec", "avgSubsetConnectivity_is",
         "quicksort_sorts", "quicksort_decreasing_weights", "idFilterAdv_keeps_preferred", "idFilterAdv_conscover", "idFilterAdv_random",
         "idFilterAdv_origorder", "consensus_by_all_selects", "consensus_by_rf_selects", "consensus_by_sample_selects",
-        "pbAdv_consensus_cascade", "average_sampling_in_bounds", "average_all_empty", "linkage_additive_ultrametric", "idFilterAdv_consensus_cascade", "linkage_cladesizes_root", "fragment_rule_documented", "pairId_text_digital_agree", "pairId_text_digital_agree_dna", "msaSingleLinkage_one_cluster_at_zero", "idFilterText_keeps_first_at_zero", "blosum_all_one_at_zero", "idFilterDigital_keeps_top_at_zero")]
+        "pbAdv_consensus_cascade", "average_sampling_in_bounds", "average_all_empty", "linkage_additive_ultrametric", "idFilterAdv_consensus_cascade", "linkage_cladesizes_root", "fragment_rule_documented", "pairId_text_digital_agree", "pairId_text_digital_agree_dna", "msaSingleLinkage_one_cluster_at_zero", "idFilterText_keeps_first_at_zero", "blosum_all_one_at_zero", "idFilterDigital_keeps_top_at_zero",
+        "gsc_tieRule_family_contains_code", "gsc_tieRule_irrelevant_without_ties", "gsc_no_tieRule_is_relisting_invariant")]
     claimed = True
     technique = ("Lean 4 proof over the exact (Q) instance of a numeric-class-polymorphic executable model of esl_distance/esl_cluster/"
                  "esl_msacluster/esl_quicksort/esl_msaweight/esl_tree(UPGMA) + bit-exact differential correspondence of the Float instance "
@@ -1211,7 +1212,7 @@ class C16(Prop):
         pairs, den = self._avg_pairs(n, maxc)
         z = dbits(0.0)
         sampling = n > 1 and not (n <= maxc and n <= math.sqrt(2.0 * maxc) and n * (n - 1) // 2 <= maxc)
-        skip = sampling and bad(allp)      # not driven: Average{Id,Match} leak their generator there (fix proposed)
+        skip = False                       # 640fa96: the sampling branch reports an unaligned pair like the exhaustive one (was: not driven)
         if skip and (f["avgid"] != "skip" or f["avgmatch"] != "skip"): return "harness protocol: expected skip, got %s" % f["avgid"]
         if pairs is not None and bad(pairs):
             want = {"avgid": "einval:" + z, "avgmatch": "einval:" + z, "conn": "einval:%s:%s" % (z, z) if aln.mode != "text" else "-"}
